@@ -1,9 +1,13 @@
-// peek.go: read-only access to the three pieces of RawNode state that influence transitions
+// peek.go: read-only access to the pieces of RawNode state that influence transitions
 // but are not exposed by Status(): the vote tally of a candidate, electionElapsed (lease /
 // CheckQuorum bookkeeping, pass 2 only) and — the only write — pinning the randomised
 // election timeout so that ticks never start an election on their own (elections are the
-// explicit campaign event). Field layout is resolved by name through reflection at start-up;
-// a missing or retyped field aborts the check with exit 2 (no verdict).
+// explicit campaign event). While a node holds a Ready (apply lag, see evLag in cluster.go) two
+// more things live inside the library only: the unstable part of the log (entries and snapshot
+// not yet handed out for persisting) and the messages not yet handed out for sending; both are
+// read here for the state key (after a complete Ready cycle both are empty). Field layout is
+// resolved by name through reflection at start-up; a missing or retyped field aborts the check
+// with exit 2 (no verdict).
 package main
 
 import (
@@ -14,10 +18,13 @@ import (
 	"unsafe"
 
 	"go.etcd.io/etcd/raft/v3"
+	pb "go.etcd.io/etcd/raft/v3/raftpb"
 )
 
 var (
 	offRaft, offElapsed, offRandTimeout, offVotes uintptr
+	offMsgs, offRaftLog                           uintptr
+	offUnstSnap, offUnstEnts, offUnstOffset       uintptr // relative to *raftLog
 	peekReady                                     bool
 )
 
@@ -52,12 +59,71 @@ func initPeek() {
 		fail("raft.prs.Votes")
 	}
 	offVotes = fp.Offset + fv.Offset
+	fm, ok := st.FieldByName("msgs")
+	if !ok || fm.Type != reflect.TypeOf([]pb.Message{}) {
+		fail("raft.msgs")
+	}
+	offMsgs = fm.Offset
+	fl, ok := st.FieldByName("raftLog")
+	if !ok || fl.Type.Kind() != reflect.Ptr || fl.Type.Elem().Kind() != reflect.Struct {
+		fail("raft.raftLog")
+	}
+	offRaftLog = fl.Offset
+	fu, ok := fl.Type.Elem().FieldByName("unstable")
+	if !ok || fu.Type.Kind() != reflect.Struct {
+		fail("raftLog.unstable")
+	}
+	us, ok := fu.Type.FieldByName("snapshot")
+	if !ok || us.Type != reflect.TypeOf(&pb.Snapshot{}) {
+		fail("raftLog.unstable.snapshot")
+	}
+	ue, ok := fu.Type.FieldByName("entries")
+	if !ok || ue.Type != reflect.TypeOf([]pb.Entry{}) {
+		fail("raftLog.unstable.entries")
+	}
+	uo, ok := fu.Type.FieldByName("offset")
+	if !ok || uo.Type.Kind() != reflect.Uint64 {
+		fail("raftLog.unstable.offset")
+	}
+	offUnstSnap, offUnstEnts, offUnstOffset = fu.Offset+us.Offset, fu.Offset+ue.Offset, fu.Offset+uo.Offset
 	peekReady = true
 }
 
 type peeked struct {
 	votes           []voteRec
 	electionElapsed int
+}
+
+// inside is what a RawNode has not handed out yet: copies of the unstable entries, the
+// unstable snapshot's boundary and the queued messages (marshalled).
+type inside struct {
+	ents    []pb.Entry
+	offset  uint64
+	snapIdx uint64
+	snapTrm uint64
+	msgs    [][]byte
+}
+
+func peekInside(rn *raft.RawNode) inside {
+	if !peekReady {
+		initPeek()
+	}
+	r := raftOf(rn)
+	var in inside
+	for _, m := range *(*[]pb.Message)(unsafe.Add(r, offMsgs)) {
+		enc, err := m.Marshal()
+		if err != nil {
+			panic(err)
+		}
+		in.msgs = append(in.msgs, enc)
+	}
+	l := *(*unsafe.Pointer)(unsafe.Add(r, offRaftLog))
+	in.ents = append([]pb.Entry(nil), *(*[]pb.Entry)(unsafe.Add(l, offUnstEnts))...)
+	in.offset = *(*uint64)(unsafe.Add(l, offUnstOffset))
+	if sn := *(**pb.Snapshot)(unsafe.Add(l, offUnstSnap)); sn != nil {
+		in.snapIdx, in.snapTrm = sn.Metadata.Index, sn.Metadata.Term
+	}
+	return in
 }
 
 func raftOf(rn *raft.RawNode) unsafe.Pointer {
